@@ -29,6 +29,7 @@ type hashmap struct {
 	table   map[int][]int // other key types: hash -> indices in ents
 	ents    []*entry
 	length  int
+	hasSym  bool // some key contains symbolic parts: lookups scan linearly (see frame.mapFind)
 }
 
 // makeMap returns an empty initialized map of key type kt.
@@ -127,4 +128,28 @@ func (it *hashmapIter) next() tuple {
 		}
 	}
 	return []value{false, nil, nil}
+}
+
+// appendSym adds an entry whose key has symbolic parts (not hashed).
+func (m *hashmap) appendSym(k, v value) {
+	m.ents = append(m.ents, &entry{key: k, value: v})
+	m.hasSym = true
+	m.length++
+}
+
+// cloneShallow copies the table structure with the given element cloner.
+func (m *hashmap) cloneWith(ck, cv func(value) value) *hashmap {
+	r := makeMap(m.keyType, 0).(*hashmap)
+	for _, e := range m.ents {
+		if e.deleted {
+			continue
+		}
+		k := ck(e.key)
+		if containsSym(k) {
+			r.appendSym(k, cv(e.value))
+		} else {
+			r.insert(k, cv(e.value))
+		}
+	}
+	return r
 }
